@@ -2,6 +2,7 @@ package props
 
 import (
 	"bytes"
+	"encoding/binary"
 	"fmt"
 	"os"
 	"path/filepath"
@@ -15,14 +16,15 @@ import (
 
 // C05 - Sync persistence. Invariants over the history, observed through os.ReadFile and the
 // independent parser (never through the live handle):
-//  (1) the file length is fixed at creation;
-//  (2) bytes on disk change only during Sync;
-//  (3) after a Sync, the disk (independent parser), a second read-only handle and the live handle
-//      agree with the model for every archive and generated window; header bytes never change
-//      after the first Sync;
-//  (4) at every operation boundary the disk holds exactly the model state as of the last Sync
-//      (= what a process that dies there leaves behind); "abandon" ops also drop the handle for
-//      real and continue on a fresh one.
+//
+//	(1) the file length is fixed at creation;
+//	(2) bytes on disk change only during Sync;
+//	(3) after a Sync, the disk (independent parser), a second read-only handle and the live handle
+//	    agree with the model for every archive and generated window; header bytes never change
+//	    after the first Sync;
+//	(4) at every operation boundary the disk holds exactly the model state as of the last Sync
+//	    (= what a process that dies there leaves behind); "abandon" ops also drop the handle for
+//	    real and continue on a fresh one.
 func diskVsModel(l Layout, b []byte, m *Model, where string) []Finding {
 	f, err := ParseWsp(b)
 	if err != nil {
@@ -212,6 +214,13 @@ func runC05History(c HistCase, ev *Evid) (fs []Finding) {
 	return nil
 }
 
+func maxI64(a, b int64) int64 {
+	if a > b {
+		return a
+	}
+	return b
+}
+
 func firstDiff(a, b []byte) int {
 	for i := range a {
 		if i >= len(b) || a[i] != b[i] {
@@ -223,27 +232,138 @@ func firstDiff(a, b []byte) int {
 
 // C05Case is either a library history or a failing CLI write (the property's last clause).
 type C05Case struct {
-	Kind string    `json:"kind"` // history | cli
-	H    *HistCase `json:"history,omitempty"`
-	CLI  *C05CLI   `json:"cli,omitempty"`
+	Kind string      `json:"kind"` // history | cli | partial
+	H    *HistCase   `json:"history,omitempty"`
+	CLI  *C05CLI     `json:"cli,omitempty"`
+	P    *C05Partial `json:"partial,omitempty"`
+}
+
+// C05Partial: updates that fail half way (a coarser archive's base interval is damaged on disk, so
+// propagation errors after the finer slot was stored), then Sync: whatever state the live handle
+// shows must be what a second handle reads from disk.
+type C05Partial struct {
+	L          Layout      `json:"layout"`
+	Now        int64       `json:"now"`
+	Pre        []SlotWrite `json:"pre"`
+	DamageArch int         `json:"damage_arch"` // >= 1
+	DamageBy   int64       `json:"damage_by"`   // added to the stored base interval (unaligned)
+	Updates    []SlotWrite `json:"updates"`
+	Batch      bool        `json:"batch"`
+}
+
+func runC05Partial(c C05Partial, ev *Evid) (fs []Finding) {
+	add := func(key, format string, args ...interface{}) {
+		fs = append(fs, Finding{Property: "C05", Key: key, Detail: fmt.Sprintf("layout %s now=%d damaged archive %d: ", c.L, c.Now, c.DamageArch) + fmt.Sprintf(format, args...)})
+	}
+	dir := scratchDir()
+	defer os.RemoveAll(dir)
+	path := filepath.Join(dir, "f.wsp")
+	if err := buildFile(path, FileSpec{L: c.L, Writes: c.Pre}, c.Now); err != nil {
+		add("setup", "%v", err)
+		return
+	}
+	b, _ := os.ReadFile(path)
+	f, perr := ParseWsp(b)
+	if perr != nil {
+		add("setup", "%v", perr)
+		return
+	}
+	ar := f.H.Archives[c.DamageArch]
+	base := f.Slots[c.DamageArch][0].Interval
+	if base == 0 {
+		ev.Discard("coarser-archive-empty")
+		return nil
+	}
+	fh, err := os.OpenFile(path, os.O_WRONLY, 0)
+	if err != nil {
+		add("setup", "%v", err)
+		return
+	}
+	var w [4]byte
+	binary.BigEndian.PutUint32(w[:], uint32(int64(base)+c.DamageBy))
+	fh.WriteAt(w[:], int64(ar.Offset))
+	fh.Close()
+	db, err := openWT(path)
+	if err != nil {
+		add("setup", "Open of the damaged file: %v", err)
+		return
+	}
+	defer db.Close()
+	failed := 0
+	if c.Batch {
+		var pts []MPoint
+		for _, u := range c.Updates {
+			pts = append(pts, MPoint{T: u.T, V: u.V})
+		}
+		if err, pm := batchWT(db, pts, 0, c.Now); pm != "" {
+			add("panic", "batch update panicked: %s", pm)
+			return
+		} else if err != nil {
+			failed++
+		}
+	} else {
+		for _, u := range c.Updates {
+			err, pm := updateWT(db, u.Arch, u.T, float64(u.V), c.Now)
+			if pm != "" {
+				add("panic", "update panicked: %s", pm)
+				return
+			}
+			if err != nil {
+				failed++
+			}
+		}
+	}
+	if err := db.Sync(); err != nil {
+		add("sync-error", "%v", err)
+		return
+	}
+	db2, err := openWT(path, wt.WithoutFlock(), wt.WithOpenFileFlag(os.O_RDONLY))
+	if err != nil {
+		add("second-open", "%v", err)
+		return
+	}
+	defer db2.Close()
+	for a := range c.L.Archives {
+		r1 := fetchWT(db, a, c.Now-c.L.Archives[a].Ret(), c.Now, c.Now)
+		r2 := fetchWT(db2, a, c.Now-c.L.Archives[a].Ret(), c.Now, c.Now)
+		if (r1.Err != nil) != (r2.Err != nil) || r1.Nil != r2.Nil || len(r1.S.Values) != len(r2.S.Values) {
+			add("handles-disagree", "archive %d: live handle (err=%v, %d values) vs second handle after Sync (err=%v, %d values); %d updates had failed", a, r1.Err, len(r1.S.Values), r2.Err, len(r2.S.Values), failed)
+			return
+		}
+		for k := range r1.S.Values {
+			if !sameF(r1.S.Values[k], r2.S.Values[k]) {
+				add("handles-disagree", "archive %d slot t=%d: the live handle shows %s, a second handle opened after a successful Sync shows %s (%d updates had failed half way)", a, r1.S.From+int64(k)*r1.S.Step, fstr(r1.S.Values[k]), fstr(r2.S.Values[k]), failed)
+				return
+			}
+		}
+	}
+	cls := []string{"partial-update"}
+	if failed > 0 {
+		cls = append(cls, "update-failed-half-way")
+	}
+	ev.Count(HashJSON(c), failed > 0, cls...)
+	return nil
 }
 
 // C05CLI: a copy / sum-copy onto an existing destination that is made to fail.
 type C05CLI struct {
-	Now     int64       `json:"now"`
-	Cmd     string      `json:"cmd"` // copy | sum-copy
-	Src     []TreeFile  `json:"src"`
-	Dest    FileSpec    `json:"dest"`   // the existing destination (its layout may differ from the source's)
-	Fault   string      `json:"fault"` // layout-mismatch | corrupt-src | devfull | second-file-mismatch
-	Corrupt []byte      `json:"corrupt,omitempty"`
-	From    int64       `json:"from"`
-	Until   int64       `json:"until"`
-	CopyNaN bool        `json:"copy_nan"`
+	Now     int64      `json:"now"`
+	Cmd     string     `json:"cmd"` // copy | sum-copy
+	Src     []TreeFile `json:"src"`
+	Dest    FileSpec   `json:"dest"`  // the existing destination (its layout may differ from the source's)
+	Fault   string     `json:"fault"` // layout-mismatch | corrupt-src | devfull | second-file-mismatch
+	Corrupt []byte     `json:"corrupt,omitempty"`
+	From    int64      `json:"from"`
+	Until   int64      `json:"until"`
+	CopyNaN bool       `json:"copy_nan"`
 }
 
 func runC05(c C05Case, ev *Evid) []Finding {
 	if c.Kind == "cli" {
 		return runC05CLI(*c.CLI, ev)
+	}
+	if c.Kind == "partial" {
+		return runC05Partial(*c.P, ev)
 	}
 	return runC05History(*c.H, ev)
 }
@@ -349,7 +469,13 @@ func runC05CLI(c C05CLI, ev *Evid) (fs []Finding) {
 		// the text writer buffers: a small output fails only when it is flushed after the final Sync (the
 		// destination then equals the completed copy); an output far larger than any buffer fails while it
 		// is printed, i.e. before the final Sync, and the destination must be untouched
-		if a == twin[rel] && !(c.Fault == "devfull" && twinOut >= 256<<10) {
+		// (only the text-output fault and the files before the failing one of a glob can legitimately have
+		// completed; a mismatching destination or a corrupt source must leave the bytes alone)
+		mayHaveCompleted := c.Fault == "devfull" && twinOut < 256<<10
+		if c.Fault == "second-file-mismatch" && rel == destRel {
+			mayHaveCompleted = true
+		}
+		if mayHaveCompleted && a == twin[rel] {
 			continue
 		}
 		add("dest-modified-by-failed-write", "the command failed (%v) but destination %s changed (first difference at byte %d) and is not the result of a completed copy", ferr, rel, firstDiff([]byte(a), []byte(b)))
@@ -433,13 +559,35 @@ func genC05CLI(t *rapid.T) C05CLI {
 
 func TestC05(t *testing.T) {
 	RunProperty(t, Property[C05Case]{
-		ID: "C05",
-		Rule: "rapid-generated histories (<=40 ops: writes, clock advances, Sync, Sync+reopen, abandon = drop the handle without Sync) on layouts weighted towards multi-page files (archives of 340-3000 slots so that 12-byte slots straddle 4 KiB pages); after EVERY op the file is re-read with os.ReadFile: length fixed, bytes unchanged unless the op was a Sync, and the bytes decoded by the independent parser equal the model state as of the last Sync (every op boundary is a crash point); after each Sync the disk, a second read-only handle and the live handle agree with the model on every archive's full window and 2 generated windows, and the header bytes equal the specification encoding and never change. One case in six is a CLI write (copy / sum-copy at a controlled clock) onto an existing destination that is made to fail - mismatching destination layout, corrupt source, text output on /dev/full, or a glob whose second file mismatches: a destination may differ from its previous bytes only if it equals what a fault-free twin run produces (the command had finished that file's final Sync). Non-trivial: history cases with >=2 Syncs that flushed writes and >=1 abandonment with unsynced writes pending; CLI cases in which the command failed. Distinct = hash of the case.",
+		NoteCases:   true,
+		ID:          "C05",
+		Rule:        "rapid-generated histories (<=40 ops: writes, clock advances, Sync, Sync+reopen, abandon = drop the handle without Sync) on layouts weighted towards multi-page files (archives of 340-3000 slots so that 12-byte slots straddle 4 KiB pages); after EVERY op the file is re-read with os.ReadFile: length fixed, bytes unchanged unless the op was a Sync, and the bytes decoded by the independent parser equal the model state as of the last Sync (every op boundary is a crash point); after each Sync the disk, a second read-only handle and the live handle agree with the model on every archive's full window and 2 generated windows, and the header bytes equal the specification encoding and never change. One case in six is a CLI write (copy / sum-copy at a controlled clock) onto an existing destination that is made to fail - mismatching destination layout, corrupt source, text output on /dev/full, or a glob whose second file mismatches: a destination may differ from its previous bytes only if it equals what a fault-free twin run produces (the command had finished that file's final Sync). One case in twelve damages a coarser archive's base interval on disk so that later updates fail half way (finer slot stored, propagation refused), then Syncs and compares the live handle with a second handle archive by archive. Non-trivial: history cases with >=2 Syncs that flushed writes and >=1 abandonment with unsynced writes pending; CLI cases in which the command failed. Distinct = hash of the case.",
 		Assumptions: []string{"the kernel page cache stands in for the disk; a crash during Sync is outside the property", "zone Z7 clocks"},
 		Gen: func(t *rapid.T) C05Case {
 			if rapid.IntRange(0, 5).Draw(t, "cli") == 0 {
 				c := genC05CLI(t)
 				return C05Case{Kind: "cli", CLI: &c}
+			}
+			if rapid.IntRange(0, 11).Draw(t, "partial") == 0 {
+				o := defaultLayoutOpts()
+				o.MinArchives, o.AllowMultiPage = 2, false
+				l := genLayout(t, o)
+				now := genNowRealistic(t, l)
+				p := C05Partial{L: l, Now: now, DamageArch: rapid.IntRange(1, len(l.Archives)-1).Draw(t, "damageArch"), Batch: rapid.Bool().Draw(t, "batch")}
+				p.DamageBy = rapid.Int64Range(1, maxI64(1, l.Archives[p.DamageArch].Step-1)).Draw(t, "damageBy")
+				// make sure every archive has data (a write to archive 0 propagates when xff allows; write coarser ones by name too)
+				for a := range l.Archives {
+					p.Pre = append(p.Pre, SlotWrite{Arch: a, T: now - rapid.Int64Range(0, minI64(l.Archives[a].Ret(), l.MaxRet())-1).Draw(t, "preAge"), V: F64(genValue(t))})
+				}
+				n := rapid.IntRange(1, 4).Draw(t, "updates")
+				for i := 0; i < n; i++ {
+					a := 0
+					if !p.Batch {
+						a = rapid.IntRange(0, p.DamageArch-1).Draw(t, "updArch")
+					}
+					p.Updates = append(p.Updates, SlotWrite{Arch: a, T: now - rapid.Int64Range(0, l.Archives[a].Ret()-1).Draw(t, "updAge"), V: F64(genValue(t))})
+				}
+				return C05Case{Kind: "partial", P: &p}
 			}
 			o := defaultLayoutOpts()
 			l := genLayout(t, o)
